@@ -437,7 +437,7 @@ package syncer
 //@   set got = got + 1 after recv errChan
 //@   set nonNil = nonNil + ite(recv != nil, 1, 0) after recv errChan
 //@   assert at call setCheckpoint: all_workers_succeeded: nonNil == 0 && got == cap(errChan)
-//@   assert after store replayed: the_replay_counts_as_applied_only_when_no_worker_failed: !replayed || (nonNil == 0 && got > 0)
+//@   assert after store replayed: the_replay_counts_as_applied_only_when_no_worker_failed: !replayed || nonNil == 0
 //   invalidated  1 once the resume position stored on the target has been withdrawn in this call
 //@   ghost var invalidated mathint = 0
 //@   set invalidated = ite(result == nil, 1, 0) after call invalidateCheckpoint
